@@ -20,7 +20,8 @@ Clauses (statement -> clause):
                                                             C12.func_int_general.span  (coefficients of a function in the span
                                                             of monomials / Legendre / shifted Chebyshev / exponentials at arbitrary
                                                             nodes, shared 1-D or per-mode 2-D X, array or list, rcond given or not,
-                                                            function scale 1e-8 .. 1e8, and func_get(funcs=...) at arbitrary points)
+                                                            function scale 1e-8 .. 1e8, and func_get(funcs=...) at arbitrary points;
+                                                            X also float32 / Fortran order / tuple, rcond positionally)
   three-term recurrence of the basis                        C12.func_basis.values (m = 1.., 1-D / 2-D / 3-D X, end points)
 
 Parameter coverage (audit): d = 4 and 5 for the TT routines (interior cores beyond the neighbours of the boundary
@@ -28,6 +29,21 @@ cores) and d = 4 dense; function scales 1e-4^d and 1e+4^d (kinds 'tiny' / 'huge'
 boxes of width 4e-7, 4e-6 (one-sided), 8e6, far from the origin (3e5, 7e5) - absolute tolerances on points or
 bounds show there; argument forms: points as list of lists / single point as list, bounds as ndarray / list / number,
 new grid m as ndarray / list / int / float (coarser and finer than n), func_sum with ndarray bounds and explicit kind.
+
+Input forms (audit f3-forms; the reference is always the float64 image of what is passed):
+  C12.forms.eval        func_get / func_gets / func_sum / func_get_full / func_gets_full / func_sum_full on an integer-valued
+                        coefficient tensor: cores float32 / int64 / int32 / mixed dtypes / Fortran order / strided view / read-only /
+                        tuple of cores; points list / tuple / float32 / integer / Fortran / strided / read-only, single point; bounds
+                        float list / array / tuple / int list / int64, int32, float32 array / Python int / float / numpy.float64;
+                        new grid list / tuple / int64, int32, float array / int / float; calls positional (documented order) /
+                        keyword / mixed / defaults left out; result float64, arguments untouched
+  C12.forms.transform   func_int (cheb and sin, kind positionally / by keyword), func_int_full, func_gets(m=None) on integer-valued
+                        grid values in the same core / array forms (float32 data: float32 tolerance - scipy's dct and numpy's fft run in
+                        single precision on it); the result is a float tensor
+  C12.forms.diff_basis  func_diff_matrix with a, b, n, m as Python int / float / numpy int64 / int32 / float64 / float32 numbers (float32
+                        bounds: float32 tolerance), func_basis with float32 / integer / Fortran / strided / read-only points, numpy m
+  C12.forms.numpy_scalar_args  DOUBTFUL, replay only: numpy.int64 / int32 / float32 / 0-d scalars as bounds or grid size raise
+                        TypeError / IndexError in grid_prep_opt (numpy.float64 works: subclass of float)
 
 Tolerance (scale-aware): every quantity is bounded by S = sum_t prod_k sum_j |c_{t,k,j}|; rounding of the scaled
 argument tau is amplified by |p'| <= n^2 S and by kappa = max(|a|,|b|)/(b-a), hence
@@ -44,7 +60,8 @@ BOUNDS = ('d = 1..4 (dense) / 2..5 (TT), n_k in 2..6 (quick) / 2..8 (thorough), 
           'Gaussian monomial coefficients, function scales 1e-4^d .. 1e4^d, 13 boxes (symmetric, one-sided, far from the origin, '
           'wide, widths 4e-7 .. 8e6), <= 12 evaluation '
           'points per case, new grids m_k in 2..9; diff matrices n = 2..8 (12 thorough), orders 1..3; custom bases: 4 families, '
-          'd = 2..4, 2..5 nodes per mode, cond <= 0.01 / rcond; func_basis m = 1..10')
+          'd = 2..4, 2..5 nodes per mode, cond <= 0.01 / rcond; func_basis m = 1..10; input forms: 9 core / array forms x 8 point forms x 10 bound forms '
+          'x 7 grid forms x 5 call forms in rotation on integer-valued tensors of 3 shapes (6 thorough), d = 2..5, numbers of 6 types for diff matrices')
 
 EPS = np.finfo(float).eps
 Pm = np.polynomial.polynomial
@@ -623,7 +640,8 @@ def func_int_general_span(d, nb, R, seed, basis, shared, form, rcond, scale, lo,
     for k in range(1 if shared else d):
         x = np.sort(g.uniform(lo, hi, size=nb))
         x = lo + (hi - lo) * (np.arange(nb) + 0.5 + 0.3 * g.uniform(-1, 1, size=nb)) / nb     # distinct, irregular
-        nodes.append(x[g.permutation(nb)])
+        x = x[g.permutation(nb)]
+        nodes.append(x.astype(np.float32).astype(float) if form == 'f32' else x)      # reference: float64 image of what is passed
     nodes = nodes * d if shared else nodes
     H = [phi(x) for x in nodes]                                  # (basis, points)
     cond = max(np.linalg.cond(h) for h in H)
@@ -645,8 +663,18 @@ def func_int_general_span(d, nb, R, seed, basis, shared, form, rcond, scale, lo,
     X = nodes[0] if shared else np.array(nodes)
     if form == 'list':
         X = X.tolist()
+    elif form == 'f32':
+        X = X.astype(np.float32)
+    elif form == 'F':
+        X = np.asfortranarray(X)
+        Y = [np.asfortranarray(G) for G in Y]
+    elif form == 'tuple':
+        X = tuple(X.tolist()) if shared else tuple(tuple(x) for x in X.tolist())
     kw = {} if rcond is None else dict(rcond=rcond)
-    A = teneva.func_int_general(Y, X, phi, **kw)
+    if form in ('f32', 'F', 'tuple') and rcond is not None:
+        A = teneva.func_int_general(Y, X, phi, rcond)                   # rcond positionally (documented 4th parameter)
+    else:
+        A = teneva.func_int_general(Y, X, phi, **kw)
     msg = gen.wf(A, n)
     if msg:
         return FAIL('result not well-formed: ' + msg)
@@ -692,6 +720,320 @@ def func_basis_values(m, shape, seed):
         if not err <= 64. * EPS * (k + 1) ** 2:
             return FAIL(f'T_{k}: error {err:.3e}')
     return PASS
+
+
+# ------------------------------------------------------------------ input forms (audit f3-forms)
+# The statement quantifies over every coefficient / value tensor, point, box and grid; the clauses above hand them over as
+# fresh float64 C-ordered arrays, Python floats and keyword calls.  Here the SAME quantities arrive in the other forms a
+# caller may use; the reference is always computed from the float64 image of what is passed.
+
+CORE_FORMS = ('f64', 'f32', 'i64', 'i32', 'mixed', 'F', 'V', 'ro', 'tuple')
+POINT_FORMS = ('arr', 'list', 'tuple', 'f32', 'i64', 'F', 'V', 'ro')
+BOUND_FORMS = ('list', 'arr', 'tuple', 'intlist', 'intarr', 'i32arr', 'f32arr', 'int', 'float', 'npf64')
+GRID_FORMS = ('list', 'arr', 'tuple', 'i32arr', 'farr', 'int', 'float')
+CALL_FORMS = ('kw', 'pos', 'mix:2', 'min', 'kwmin')
+FBOXES = [(-1, 1), (-3, 5), (0, 2), (-2, -1), (-3, 3)]          # integer-valued bounds: every form can carry them
+REQ = gen.call_form.REQ
+
+
+def _arr_form(G, form, k=0):
+    """the integer-valued float64 array G with the same values in another dtype / memory layout"""
+    if form == 'mixed':
+        form = ('f32', 'i64', 'f64', 'i32')[k % 4]
+    if form in ('f64', 'tuple'):
+        return G.copy()
+    if form in ('f32', 'i64', 'i32'):
+        H = G.astype({'f32': np.float32, 'i64': np.int64, 'i32': np.int32}[form])
+        assert np.array_equal(H.astype(float), G)
+        return H
+    if form == 'F':
+        return np.asfortranarray(G)
+    if form == 'V':                                  # non-contiguous view into a larger buffer
+        big = np.full([2 * s for s in G.shape], 9.75)
+        sl = tuple(slice(None, None, 2) for _ in G.shape)
+        big[sl] = G
+        return big[sl]
+    if form == 'ro':
+        H = G.copy()
+        H.setflags(write=False)
+        return H
+    raise ValueError(form)
+
+
+def _cores_form(Y, form):
+    Z = [_arr_form(G, form, k) for k, G in enumerate(Y)]
+    return tuple(Z) if form == 'tuple' else Z
+
+
+def _points_form(X, form):
+    if form == 'list':
+        return X.tolist()
+    if form == 'tuple':
+        return tuple(tuple(float(v) for v in row) for row in X)
+    if form == 'arr':
+        return X.copy()
+    return _arr_form(X, form)
+
+
+def _bounds_form(a, b, form):
+    """a, b: lists of Python ints (equal entries for the scalar forms)"""
+    if form in ('int', 'float', 'npf64'):
+        t = {'int': int, 'float': float, 'npf64': np.float64}[form]
+        return t(a[0]), t(b[0])
+    f = {'list': lambda v: [float(x) for x in v], 'arr': lambda v: np.array(v, dtype=float), 'tuple': lambda v: tuple(float(x) for x in v),
+         'intlist': lambda v: [int(x) for x in v], 'intarr': lambda v: np.array(v, dtype=np.int64),
+         'i32arr': lambda v: np.array(v, dtype=np.int32), 'f32arr': lambda v: np.array(v, dtype=np.float32)}[form]
+    return f(a), f(b)
+
+
+def _grid_form(mm, form):
+    if form in ('int', 'float'):
+        return int(mm[0]) if form == 'int' else float(mm[0])
+    return {'list': list, 'tuple': tuple, 'arr': lambda v: np.array(v), 'i32arr': lambda v: np.array(v, dtype=np.int32),
+            'farr': lambda v: np.array(v, dtype=float)}[form](mm)
+
+
+def _cheb_eval_dense(D, taus):
+    """sum_j D[j] prod_k T_{j_k}(taus[k][i]) for every point i (direct definition, numpy.polynomial)"""
+    Vd = [Pc.chebvander(np.asarray(t, dtype=float), D.shape[k] - 1) for k, t in enumerate(taus)]
+    out = np.zeros(len(taus[0]))
+    for i in range(len(out)):
+        T = D
+        for k in range(D.ndim):
+            T = np.tensordot(Vd[k][i], T, axes=(0, 0))
+        out[i] = T
+    return out
+
+
+def _cheb_resample_dense(D, mm):
+    T = D
+    for k, mk in enumerate(mm):
+        T = np.moveaxis(np.tensordot(Pc.chebvander(_nodes_t(mk), D.shape[k] - 1), T, axes=(1, k)), 0, k)
+    return T
+
+
+def _cheb_integral_dense(D, a, b):
+    T = D
+    for k in range(D.ndim):
+        w = np.array([np.diff(Pc.chebval([-1., 1.], Pc.chebint([0.] * j + [1.])))[0] for j in range(D.shape[k])])
+        T = np.tensordot(w * (b[k] - a[k]) / 2., T, axes=(0, 0))
+    return float(T)
+
+
+def _forms_setup(n, R, seed, bounds):
+    n = [int(k) for k in n]
+    d = len(n)
+    g = gen.rng('C12.forms', n, R, seed, bounds)
+    if bounds in ('int', 'float', 'npf64', 'npi64', 'npf32', '0d'):
+        bx = [FBOXES[(1, 4)[seed % 2]]] * d                   # one box for all modes: (-3, 5) or the symmetric (-3, 3)
+    else:
+        bx = [FBOXES[int(g.integers(len(FBOXES)))] for _ in range(d)]
+    return n, d, g, [x[0] for x in bx], [x[1] for x in bx]
+
+
+@clause('C12.forms.eval', funcs=('func.func_get', 'func.func_gets', 'func.func_sum', 'func_full.func_get_full',
+                                 'func_full.func_gets_full', 'func_full.func_sum_full', 'grid.grid_prep_opts', 'grid.poi_scale'))
+def forms_eval(n, R, seed, cores, points, bounds, grid, call):
+    """Evaluation, re-sampling and integration of the polynomial with an integer-valued Chebyshev coefficient tensor, the
+    arguments in other input forms: coefficient cores float32 / int64 / int32 / mixed dtypes / Fortran order / non-contiguous /
+    read-only views / a tuple of cores (the dense routines: the array in that dtype / layout), points as list / tuple / float32 /
+    integer / Fortran-ordered / strided / read-only array (and one point alone), bounds as float / int list, tuple, float64 /
+    int64 / int32 / float32 array, Python int / float / numpy.float64 number, new grid as list / tuple / array (int64, int32,
+    float) / int / float, and every argument positionally in the documented order / by keyword / mixed.  Reference: dense
+    contraction of the float64 image of the coefficients with numpy.polynomial.chebyshev Vandermonde matrices."""
+    n, d, g, a, b = _forms_setup(n, R, seed, bounds)
+    A = gen.tt(n, R, seed, 'int')
+    D = gen.dense(A)
+    S = float(gen.absdense(A).sum())
+    if S == 0:
+        return SKIP('zero coefficient tensor')
+    tol = 64. * EPS * d * max(n) ** 2 * (1. + _kappa(a, b)) * S
+    tol1 = 64. * EPS * d * max(n) ** 2 * S
+    Af = _cores_form(A, cores)
+    Df = _arr_form(D, 'f64' if cores in ('mixed', 'tuple') else cores)
+    af, bf = _bounds_form(a, b, bounds)
+    m = 5
+    if points == 'i64':
+        X = np.array([[int(g.integers(a[k], b[k] + 1)) for k in range(d)] for _ in range(m)], dtype=float)
+    else:
+        X = np.array(a, dtype=float) + g.uniform(0.01, 0.99, size=(m, d)) * (np.array(b, dtype=float) - np.array(a, dtype=float))
+        if points == 'f32':
+            X = np.clip(X.astype(np.float32).astype(float), a, b)
+    X[-1, seed % d] = b[seed % d] + (1.0 if points == 'i64' else 0.5)        # one point outside the box: receives the fill value
+    Xf = _points_form(X, points)
+    snap = gen.snapshot([list(Af), Df, Xf if isinstance(Xf, np.ndarray) else None, af, bf])
+    taus = [_tau(X[:-1, k], a[k], b[k]) for k in range(d)]
+    want = np.concatenate([_cheb_eval_dense(D, taus), [-7.5]])
+    y = gen.call_form(teneva.func_get, ('X', 'A', 'a', 'b', 'z', 'funcs', 'kind', 'skip_out'),
+                      (Xf, Af, af, bf, -7.5, None, 'cheb', None), (REQ, REQ, None, None, 0., None, 'cheb', None), call)
+    msg = _cmp(y, want, tol, 'func_get')
+    if msg:
+        return FAIL(msg)
+    if not (isinstance(y, np.ndarray) and y.dtype == np.float64 and y[-1] == -7.5):
+        return FAIL(f'func_get: result dtype {getattr(y, "dtype", None)}, outside point {y[-1]!r} (z = -7.5)')
+    x1 = Xf[1] if not isinstance(Xf, tuple) else Xf[1]
+    y1 = gen.call_form(teneva.func_get, ('X', 'A', 'a', 'b', 'z'), (x1, Af, af, bf, -7.5), (REQ, REQ, None, None, 0.), call)
+    if not (np.ndim(y1) == 0 and abs(float(y1) - want[1]) <= tol):
+        return FAIL(f'func_get(single point as {points}) = {y1!r}, expected {want[1]!r}')
+    if isinstance(Xf, np.ndarray):                            # the dense routine documents ndarray points only
+        yd = gen.call_form(teneva.func_get_full, ('X', 'A', 'a', 'b', 'z', 'skip_out'), (Xf, Df, af, bf, -7.5, True),
+                           (REQ, REQ, REQ, REQ, 0., True), call)
+        msg = _cmp(yd, want, tol, 'func_get_full')
+        if msg:
+            return FAIL(msg)
+    mm = [2 + int(g.integers(0, 5)) for _ in range(d)]
+    if grid in ('int', 'float'):
+        mm = [mm[0]] * d
+    mf = _grid_form(mm, grid)
+    wantZ = _cheb_resample_dense(D, mm)
+    Z = gen.call_form(teneva.func_gets, ('A', 'm', 'kind'), (Af, mf, 'cheb'), (REQ, None, 'cheb'), call)
+    msg = gen.wf(Z, mm) or _cmp(gen.dense(Z), wantZ, tol1, f'func_gets on the grid {mm} given as {grid}')
+    if msg:
+        return FAIL(msg)
+    Zd = gen.call_form(teneva.func_gets_full, ('A', 'a', 'b', 'm'), (Df, af, bf, mf), (REQ, REQ, REQ, None), call)
+    msg = _cmp(Zd, wantZ, tol1, f'func_gets_full on the grid {mm} given as {grid}')
+    if msg:
+        return FAIL(msg)
+    vol = float(np.prod([y_ - x_ for x_, y_ in zip(a, b)]))
+    wantI = _cheb_integral_dense(D, a, b)
+    v = gen.call_form(teneva.func_sum, ('A', 'a', 'b', 'kind'), (Af, af, bf, 'cheb'), (REQ, REQ, REQ, 'cheb'), call)
+    msg = _cmp(v, wantI, tol1 * vol, 'func_sum')
+    if msg:
+        return FAIL(msg)
+    if all(x_ == -y_ for x_, y_ in zip(a, b)):
+        v = gen.call_form(teneva.func_sum_full, ('A', 'a', 'b'), (Df, af, bf), (REQ, REQ, REQ), call)
+        msg = _cmp(v, wantI, tol1 * vol, 'func_sum_full')
+        if msg:
+            return FAIL(msg)
+    if gen.snapshot([list(Af), Df, Xf if isinstance(Xf, np.ndarray) else None, af, bf]) != snap:
+        return FAIL('an argument was modified')
+    return PASS
+
+
+def _dct1_matrix(nk):
+    """c = M v: Chebyshev coefficients of the values v at the nodes cos(pi i / (nk - 1)) (direct definition)"""
+    i = np.arange(nk)
+    w = np.where((i == 0) | (i == nk - 1), 0.5, 1.0)
+    return (2. / (nk - 1)) * w[:, None] * np.cos(np.pi * np.outer(i, i) / (nk - 1)) * w[None, :]
+
+
+def _dst1_matrix(nk):
+    i = np.arange(1, nk + 1)
+    return (2. / (nk + 1)) * np.sin(np.pi * np.outer(i, i) / (nk + 1))
+
+
+def _apply_modes(V, mats):
+    T = V
+    for k, M in enumerate(mats):
+        T = np.moveaxis(np.tensordot(M, T, axes=(1, k)), 0, k)
+    return T
+
+
+@clause('C12.forms.transform', funcs=('func.func_int', 'func.func_gets', 'func_full.func_int_full'))
+def forms_transform(n, R, seed, cores, call):
+    """The coefficient transform of integer-valued grid values handed over as float32 / int64 / int32 / mixed-dtype /
+    Fortran-ordered / strided / read-only cores or a tuple of cores (dense: the array in that form), kind positionally or by
+    keyword: Chebyshev and sine coefficients equal the direct cosine / sine sums of the float64 image (float32 data: to
+    float32 accuracy - the transform of the library runs in single precision then), the result is a float tensor, re-sampling
+    on the same grid returns the values, the argument is not modified."""
+    n = [int(k) for k in n]
+    d = len(n)
+    Y = gen.tt(n, R, seed, 'int')
+    V = gen.dense(Y)
+    S = float(gen.absdense(Y).sum())
+    if S == 0:
+        return SKIP('zero tensor')
+    single = cores in ('f32', 'mixed')
+    tol = 64. * (np.finfo(np.float32).eps if single else EPS) * d * max(n) ** 2 * S
+    Yf = _cores_form(Y, cores)
+    Vf = _arr_form(V, 'f64' if cores in ('mixed', 'tuple') else cores)
+    snap = gen.snapshot([list(Yf), Vf])
+    for kind, mats in (('cheb', [_dct1_matrix(k) for k in n]), ('sin', [_dst1_matrix(k) for k in n])):
+        want = _apply_modes(V, mats)
+        A = gen.call_form(teneva.func_int, ('Y', 'kind'), (Yf, kind), (REQ, 'cheb'), call)
+        if not isinstance(A, list) or len(A) != d or any(not isinstance(G, np.ndarray) or G.dtype.kind != 'f' for G in A):
+            return FAIL(f'func_int({kind}) of {cores} cores: not a list of float arrays: {[getattr(G, "dtype", None) for G in A]}')
+        msg = gen.wf([np.asarray(G, dtype=float) for G in A], n) or _cmp(gen.dense(A), want, tol, f'{kind} coefficients')
+        if msg:
+            return FAIL(msg)
+        B = gen.call_form(teneva.func_gets, ('A', 'm', 'kind'), (A, None, kind), (REQ, None, 'cheb'), call)
+        msg = _cmp(gen.dense(B), V, tol * max(n), f'{kind}: re-sampling on the same grid')
+        if msg:
+            return FAIL(msg)
+    F = teneva.func_int_full(Vf)
+    if not (isinstance(F, np.ndarray) and F.dtype.kind == 'f'):
+        return FAIL(f'func_int_full of a {cores} array returns dtype {getattr(F, "dtype", None)}')
+    msg = _cmp(F, _apply_modes(V, [_dct1_matrix(k) for k in n]), tol, 'dense coefficients')
+    if msg:
+        return FAIL(msg)
+    if gen.snapshot([list(Yf), Vf]) != snap:
+        return FAIL('the argument was modified')
+    return PASS
+
+
+@clause('C12.forms.diff_basis', funcs=('func.func_diff_matrix', 'func.func_basis'))
+def forms_diff_basis(n, order, seed, num, call):
+    """func_diff_matrix with the bounds / the grid size / the order as Python int, float, numpy.int64 / int32 / float64 / float32
+    numbers, positionally or by keyword: exact derivatives of an integer polynomial at the nodes; func_basis with float32 /
+    integer / Fortran-ordered / strided points and a numpy integer m: T_k of the float64 image of the points."""
+    a, b = FBOXES[seed % len(FBOXES)]
+    tn = {'int': int, 'float': float, 'npi64': np.int64, 'npi32': np.int32, 'npf64': np.float64, 'npf32': np.float32}[num]
+    ti = tn if num in ('int', 'npi64', 'npi32') else int
+    c = _coefs([n], 1, seed, 'int')[0][0]
+    t = _nodes_t(n)
+    v = Pm.polyval(t, c)
+    D = gen.call_form(teneva.func_diff_matrix, ('a', 'b', 'n', 'm', 'kind'), (tn(a), tn(b), tn(n), ti(order), 'cheb'),
+                      (REQ, REQ, REQ, 1, 'cheb'), call)
+    D = [D] if order == 1 and isinstance(D, np.ndarray) else D
+    if not (isinstance(D, list) and len(D) == order and all(isinstance(M, np.ndarray) and M.shape == (n, n) for M in D)):
+        return FAIL(f'm={order}: not {order} matrices of shape ({n}, {n})')
+    S = np.abs(c).sum()
+    for q in range(1, order + 1):
+        dc = Pm.polyder(c, q) if q < len(c) else np.zeros(1)
+        want = Pm.polyval(t, dc) * (2. / (b - a)) ** q
+        # numpy.float32 bounds: the scale factor 2 / (b - a) is then formed in single precision by the library
+        msg = _cmp(D[q - 1] @ v, want, 64. * (np.finfo(np.float32).eps if num == 'npf32' else EPS) * n ** (2 * q + 2) * (2. / (b - a)) ** q * S,
+                   f'derivative of order {q} ({num} numbers)')
+        if msg:
+            return FAIL(msg)
+    g = gen.rng('C12.forms.basis', n, seed)
+    X = g.uniform(-1, 1, size=(4, 3)).astype(np.float32).astype(float)
+    for form, Xf in (('f32', X.astype(np.float32)), ('F', np.asfortranarray(X)), ('V', _arr_form(X, 'V')), ('ro', _arr_form(X, 'ro')),
+                     ('i64', np.array([[-1, 0, 1], [1, 1, -1]]))):
+        X0 = Xf.copy()
+        T = gen.call_form(teneva.func_basis, ('X', 'm', 'kind'), (Xf, ti(n), 'cheb'), (REQ, 10, 'cheb'), call)
+        if not (isinstance(T, np.ndarray) and T.shape == (n,) + Xf.shape and T.dtype == np.float64):
+            return FAIL(f'func_basis({form} points): shape {getattr(T, "shape", None)} dtype {getattr(T, "dtype", None)}')
+        if not np.array_equal(Xf, X0):
+            return FAIL(f'func_basis({form} points): argument modified')
+        for k in range(n):
+            err = float(np.abs(T[k] - Pc.chebval(Xf.astype(float), [0.] * k + [1.])).max())
+            if not err <= 64. * EPS * (k + 1) ** 2:
+                return FAIL(f'func_basis({form} points): T_{k} error {err:.3e}')
+    return PASS
+
+
+# DOUBTFUL (not yielded, replay only): bounds a / b and the grid size m as NumPy scalars that are not Python numbers
+# (numpy.int64, numpy.int32, numpy.float32, 0-d arrays).  The docstrings say "float" resp. "int, float"; grid.grid_prep_opt
+# tests isinstance(opt, (int, float)), so numpy.float64 (a float subclass) works and numpy.int64(4) - what n.max() or
+# len-arithmetic on shapes returns - becomes a 0-d array: func_get / func_sum / func_gets raise TypeError / IndexError.
+@clause('C12.forms.numpy_scalar_args', funcs=('grid.grid_prep_opt', 'func.func_get', 'func.func_gets', 'func.func_sum'), replay_only=True)
+def forms_numpy_scalar_args(n, R, seed, num):
+    """func_get / func_sum with bounds given as one NumPy scalar for all modes and func_gets with the grid size as a NumPy
+    integer scalar give what the Python numbers of the same value give."""
+    n = [int(k) for k in n]
+    tn = {'npi64': np.int64, 'npi32': np.int32, 'npf32': np.float32, '0d': np.array}[num]
+    A = gen.tt(n, R, seed, 'int')
+    X = gen.rng('C12.forms.scalar', seed).uniform(-3, 5, size=(4, len(n)))
+    try:
+        y = teneva.func_get(X, A, tn(-3), tn(5))
+        v = teneva.func_sum(A, tn(-3), tn(5))
+        Z = teneva.func_gets(A, tn(4))
+    except (TypeError, IndexError) as e:
+        return FAIL(f'{num} scalar rejected: {type(e).__name__}: {e}')
+    msg = _cmp(y, teneva.func_get(X, A, -3., 5.), 0., 'func_get') or _cmp(v, teneva.func_sum(A, -3., 5.), 0., 'func_sum') \
+        or _cmp(gen.dense(Z), gen.dense(teneva.func_gets(A, 4)), 0., 'func_gets')
+    return FAIL(msg) if msg else PASS
 
 
 # ------------------------------------------------------------------ case list
@@ -825,3 +1167,38 @@ def cases(tier, seed):
             yield 'C12.tt.gets', dict(p, m=[int(g.integers(2, 10)) for _ in range(d)])
             yield 'C12.tt.sum', p
             yield 'C12.tt.outside', dict(p, z=float(g.choice([0., 3.25, -1e10])))
+    # ---- input forms (audit f3-forms): every form of every argument at least once in quick, the full cross rotation in thorough
+    fshapes = [[3, 4], [2, 3, 2], [4, 2, 3, 2]] + ([[5, 5], [2, 2, 2, 2, 2], [6, 3, 4]] if big else [])
+    j = 0
+    for rnd in range(6 if big else 2):
+        for cf in CORE_FORMS:
+            for n in fshapes:
+                j += 1
+                if not big and (j + rnd) % 3 and len(n) != 3:
+                    continue
+                yield 'C12.forms.eval', dict(n=n, R=1 + j % 3, seed=j, cores=cf, points=POINT_FORMS[(j + rnd) % len(POINT_FORMS)],
+                                             bounds=BOUND_FORMS[(j // 2 + 3 * rnd) % len(BOUND_FORMS)],
+                                             grid=GRID_FORMS[(j + 2 * rnd) % len(GRID_FORMS)], call=CALL_FORMS[(j + rnd) % len(CALL_FORMS)])
+                yield 'C12.forms.transform', dict(n=n, R=1 + j % 3, seed=j, cores=cf, call=CALL_FORMS[(j + rnd) % len(CALL_FORMS)])
+    j = 0
+    for pf in POINT_FORMS:                           # each point / bound / grid form against plain float64 cores as well
+        for bf in BOUND_FORMS if big else (BOUND_FORMS[j % 2::2]):
+            j += 1
+            yield 'C12.forms.eval', dict(n=[3, 2, 4][:2 + j % 2], R=2, seed=100 + j, cores='f64', points=pf, bounds=bf,
+                                         grid=GRID_FORMS[j % len(GRID_FORMS)], call=CALL_FORMS[j % len(CALL_FORMS)])
+    j = 0
+    for num in ('int', 'float', 'npi64', 'npi32', 'npf64', 'npf32'):
+        for n in (2, 3, 5, 8) if big else (3, 6):
+            for order in (1, 2, 3):
+                j += 1
+                yield 'C12.forms.diff_basis', dict(n=n, order=order, seed=j, num=num, call=CALL_FORMS[j % len(CALL_FORMS)])
+    j = 0
+    for d in (2, 3):
+        for basis in ('mono', 'legendre', 'expo'):
+            for shared in (True, False):
+                for form in ('f32', 'F', 'tuple'):
+                    j += 1
+                    if not big and j % 2:
+                        continue
+                    yield 'C12.func_int_general.span', dict(d=d, nb=2 + j % 3, R=1 + j % 2, seed=200 + j, basis=basis, shared=shared,
+                                                            form=form, rcond=[None, 1e-10, 1e-6][j % 3], scale=1., lo=-0.75, hi=0.5)
